@@ -88,8 +88,9 @@ class NpzMapping:
             raise KeyError(k)
         if k not in self._cache:
             a = self._arrays[k]
-            if a.dtype.kind not in 'fiu':
-                raise KeyError(k)
+            if a.dtype.kind not in 'fiu' or a.size == 0 or k.startswith('__'):
+                self._cache[k] = a          # MATLAB header members: plain data, never a filter
+                return a
             arr = np.empty(a.shape, dtype=object)
             flat = 0
             for idx in np.ndindex(*a.shape):
